@@ -31,7 +31,9 @@ func (p *params) VerifKeygenInternal(skSeed, skPrf, pkSeed []byte) (*SecretKey, 
 }
 
 // VerifSignInternal exposes signInternal (Algorithm 19) on an already formatted message.
-func (sk *SecretKey) VerifSignInternal(msg, addrnd []byte) []byte { return sk.signInternal(msg, addrnd) }
+func (sk *SecretKey) VerifSignInternal(msg, addrnd []byte) []byte {
+	return sk.signInternal(msg, addrnd)
+}
 
 // VerifVerifyInternal exposes verifyInternal (Algorithm 20) on an already formatted message.
 func (pk *PublicKey) VerifVerifyInternal(msg, sig []byte) error { return pk.verifyInternal(msg, sig) }
